@@ -638,12 +638,14 @@ static void run_purge_switch(State& S) {
     vf_cur_what = "mi_option_set(purge_delay,0)";
     mi_option_set(mi_option_purge_delay, 0);
     g_px_rounds = 1;
-    for (int k = 0; k < 4; k++) { tick(S, 2000); small_activity(S, &r, 20); vf_cur_what = "non-forced collect"; mi_collect(false); }
+    // (the purge was scheduled with the old delay: the old delay times the arena multiplier has to pass -- waiting less and demanding the purge was a false alarm of this scenario with purge_delay=1000)
+    const long waitms = d * (mult > 0 ? mult : 1) + 1000;
+    for (int k = 0; k < 4; k++) { tick(S, waitms); small_activity(S, &r, 20); vf_cur_what = "non-forced collect"; mi_collect(false); }
     if (pend_len > 0 && in_arena(arena_areas(), pend_lo, pend_lo + pend_len)) {
       size_t res = vf_os_committed_resident(pend_lo, pend_len); g_px_checked++; g_px_bytes += pend_len;
       if (res > 0)
-        vf_trip("not-purged-after-delay", "C18", "a whole free segment (%zu bytes) was waiting for its purge (purge_delay=%ld) when the delay was set to 0 with mi_option_set; 8 virtual seconds, "
-                "ordinary activity and 4 non-forced collects later %zu bytes of it are still committed and resident", pend_len, d, res);
+        vf_trip("not-purged-after-delay", "C18", "a whole free segment (%zu bytes) was waiting for its purge (purge_delay=%ld) when the delay was set to 0 with mi_option_set; 4 x %ld virtual ms (more than the old arena delay each), "
+                "ordinary activity and 4 non-forced collects later %zu bytes of it are still committed and resident", pend_len, d, waitms, res);
     }
     mi_option_set(mi_option_purge_delay, d);
     S.sm.verify_all("after switch to 0");
